@@ -1174,13 +1174,12 @@ class OFConnection (object):
 
       try:
         new_offset, msg_obj = self.unpackers[ofp_type](message, 0)
-      except Exception as e:
-        info = (e, message[:message_length], None)
-        r = self._error_handler(self.ERR_EXCEPTION, info)
-        if r is False: break
-        # Assume sender was right and we should skip what it told us to.
-        io_worker.consume_receive_buf(message_length)
-        continue
+      except Exception:
+        # Can't make sense of the body; handle it like a bad length (tell
+        # the sender, skip what it told us to).
+        self.log.exception('Exception unpacking message type 0x%02x',
+                           ofp_type)
+        new_offset, msg_obj = None, None
       if new_offset != message_length:
         info = (msg_obj, message_length, new_offset)
         r = self._error_handler(self.ERR_BAD_LENGTH, info)
